@@ -323,9 +323,9 @@ fn gen_gff(w: &World, d: Dialect) -> Vec<GffModel> {
         if many_values {
             w.probe("many_values_record");
         }
-        // at most 5 keys — 1 record in 25: at most 6 — because the hash order of the keys is forced
+        // at most 5 keys — 1 record in 60: at most 6 — because the hash order of the keys is forced
         // by rejection sampling (5! = 120, 6! = 720 expected tries of about a microsecond each)
-        let max_keys = if w.chance(1, 25) { 6 } else { 5 };
+        let max_keys = if w.chance(1, 60) { 6 } else { 5 };
         while w.more_p(attrs.len() as u64, max_keys, if max_keys > 5 { 9 } else { 2 }, if max_keys > 5 { 10 } else { 3 }) {
             let mut key = match w.draw(11) {
                 // keys that carry meaning in GFF3 / GTF and might be special-cased
